@@ -96,8 +96,16 @@ type errInfo struct {
 }
 
 // Env holds the recording state of one execution of one scenario.
+type genEntry struct {
+	f   *am.Func
+	idx int
+	fs  FuncSpec
+}
+
 type Env struct {
-	execCount map[int]int // executions per function (FailOn)
+	genMu     sync.Mutex
+	genCache  map[string]genEntry // converters handed out by the generators, per (generator, value)
+	execCount map[int]int         // executions per function (FailOn)
 	mu        sync.Mutex
 	Next      int // last token handed out
 	NextErr   int
@@ -147,7 +155,28 @@ func plain(ls []Label) bool {
 	return true
 }
 
+// Names of the label universe that stand for strings TLC's output does not carry well: "xuml" is a name with a
+// non-ASCII letter (case folding is not only about A-Z).
+var realNames = map[string]string{"xuml": "m\u00fc"}
+var symNames = map[string]string{"m\u00fc": "xuml"}
+
+func realName(n string) string {
+	if r, ok := realNames[n]; ok {
+		return r
+	}
+	return n
+}
+
+// SymName maps a (lower-cased) name reported by the library back to the label universe.
+func SymName(n string) string {
+	if r, ok := symNames[n]; ok {
+		return r
+	}
+	return n
+}
+
 func tagOf(l Label, upper bool) reflect.StructTag {
+	l.Name = realName(l.Name)
 	if upper {
 		l.Name = strings.ToUpper(l.Name)
 	}
@@ -171,7 +200,7 @@ func structOf(ls []Label, upper bool) reflect.Type {
 			Type: TypeOf(l.Type),
 			Tag:  tagOf(l, upper),
 		}
-		if !upper && i%2 == 0 && plainName.MatchString(l.Name) {
+		if !upper && i%2 == 0 && plainName.MatchString(realName(l.Name)) {
 			// the other way to name a value: the field carries the name, the tag only options (or nothing)
 			f.Name = strings.ToUpper(l.Name[:1]) + l.Name[1:]
 			f.Tag = ""
@@ -351,8 +380,8 @@ func (env *Env) buildReflect(idx int, fs FuncSpec, opts []am.Arg) (*am.Func, err
 		env.emit(ex)
 		return res
 	})
-	if env.ViaList {
-		// NewFuncList "is the same as calling NewFunc for each f"
+	if env.ViaList || (fs.Once && idx%2 == 1) {
+		// NewFuncList "is the same as calling NewFunc for each f" (every other run-once function is built this way too)
 		fl, err := am.NewFuncList([]interface{}{fn.Interface()}, opts...)
 		if err != nil {
 			return nil, err
@@ -365,7 +394,7 @@ func (env *Env) buildReflect(idx int, fs FuncSpec, opts []am.Arg) (*am.Func, err
 func toValues(ls []Label, upper bool) []am.Value {
 	vs := make([]am.Value, len(ls))
 	for i, l := range ls {
-		n := l.Name
+		n := realName(l.Name)
 		if upper {
 			n = strings.ToUpper(n)
 		}
@@ -400,7 +429,7 @@ func (env *Env) buildBuilt(idx int, fs FuncSpec, opts []am.Arg) (*am.Func, error
 			t := env.tok()
 			var p *am.Value
 			if l.Name != "" {
-				p = out.Named(strings.ToLower(l.Name))
+				p = out.Named(strings.ToLower(realName(l.Name)))
 			} else {
 				// well-formed lists hold at most one type-only value per type
 				p = out.Typed(TypeOf(l.Type))
@@ -432,6 +461,7 @@ func (env *Env) buildBuilt(idx int, fs FuncSpec, opts []am.Arg) (*am.Func, error
 
 // apiArg renders a supplied value through one of the equivalent spellings of the API.
 func apiArg(l Label, v interface{}, variant int) am.Arg {
+	l.Name = realName(l.Name)
 	// value names are matched case-insensitively: spell the name in another case now and then
 	if l.Name != "" && variant >= 3 {
 		l.Name = strings.ToUpper(l.Name[:1]) + l.Name[1:]
@@ -478,14 +508,29 @@ func (env *Env) genFunc(g GenSpec) am.ConverterGenFunc {
 		case "nil":
 			return nil, nil
 		}
+		// a generator is a registry: asked about the same value again (the next Call, a Redefine), it hands out the same function
+		key := fmt.Sprintf("%s>%s/%s/%s", g.From, g.To, v.Name, v.Subtype)
+		env.genMu.Lock()
+		defer env.genMu.Unlock()
+		if c, ok := env.genCache[key]; ok {
+			env.emit(EvGen{Ev: "gen", Fn: c.idx, Fin: cp(c.fs.In), Fout: cp(c.fs.Out)})
+			return c.f, nil
+		}
 		env.nextGen++
 		idx := env.nextGen
 		fs := FuncSpec{
-			In:   []Label{{Name: v.Name, Type: g.From, Sub: v.Subtype}},
-			Out:  []Label{{Name: v.Name, Type: g.To, Sub: v.Subtype}},
+			In:   []Label{{Name: SymName(v.Name), Type: g.From, Sub: v.Subtype}},
+			Out:  []Label{{Name: SymName(v.Name), Type: g.To, Sub: v.Subtype}},
 			Form: "built", HasErr: true,
 		}
 		env.emit(EvGen{Ev: "gen", Fn: idx, Fin: cp(fs.In), Fout: cp(fs.Out)})
-		return env.Build(idx, fs)
+		f, err := env.Build(idx, fs)
+		if err == nil {
+			if env.genCache == nil {
+				env.genCache = map[string]genEntry{}
+			}
+			env.genCache[key] = genEntry{f: f, idx: idx, fs: fs}
+		}
+		return f, err
 	}
 }
